@@ -128,8 +128,8 @@ def run(ctx: Ctx) -> int:
         "read_config_from_file) and run through init_tealer_from_config + run_detectors. Oracle: one symbolic group (size, slot of every configured transaction, all fields) "
         "in which every configured contract is executed symbolically at its own slot; sat(all approve and danger on t) => t must be reported; the direct-check reading of the "
         "own contract or of a member reading t through the configured index/offset => t must be cleared",
-        [du.detect_missing_tx_field_validations_group_complete, du.contract_checks_its_field, du.contract_checks_txn_at_absolute_index, du.contract_checks_using_relative_index,
-         CC.init_tealer_from_config, TX.fill_group_relative_indexes],
+        [lambda: du.detect_missing_tx_field_validations_group_complete, lambda: du.contract_checks_its_field, lambda: du.contract_checks_txn_at_absolute_index, lambda: du.contract_checks_using_relative_index,
+         lambda: CC.init_tealer_from_config, lambda: TX.fill_group_relative_indexes],
         {"transactions": "1..3", "unroll": 2},
         ["group-size-check is not group-aware in tealer (it returns execution paths) and is outside this check",
          "cleared direction uses directly declared offsets (either side) and configured absolute indices, not derived ones"],
